@@ -162,7 +162,7 @@ PROPS["C10"] = {
             "ran once); buffer cases = write/reader/read/reset scripts on the bare BodyBuffer against a byte-slice model; non-trivial = total "
             "within +-1 of the limit, a chunk straddling it, or a multi-byte stored body (spill pair); distinct = distinct case encodings",
     "essential": {"all": ["total=limit-1", "total=limit", "total=limit+1", "chunk-straddles-limit", "partial-limit-reached", "rejected",
-                          "spilled-to-disk", "side:resp", "entry:readplain", "entry:readlen", "buffer-spilled", "buffer-reset"]},
+                          "spilled-to-disk", "side:resp", "entry:readplain", "entry:readlen", "buffer-spilled", "buffer-reset", "limit-lowered-by-ctl:req", "limit-lowered-by-ctl:resp"]},
     "assumptions": COMMON_ASSUME + [
         "after a refusal the connector stops feeding the body (writes after a refused write are not generated)",
         "for the plain-reader path under Reject the bytes copied before the limit was detected may stay stored (prefix, <= limit)",
